@@ -551,8 +551,8 @@ func check(vdir, prop, tier string, seed int64, only int) int {
 		if c.Verdict == "inconclusive" {
 			incon++
 			w := c.Inconclusive
-			if len(w) > 80 {
-				w = w[:80]
+			if len(w) > 160 {
+				w = w[:160]
 			}
 			inconWhy[w]++
 		}
